@@ -25,6 +25,7 @@ RULE = (
     'container or in another ArgFactory and >=2 calls one of which overrides a keyword. '
     'Distinct = distinct SHA-1 of the case JSON.'
 )
+RULE += (' ' + 'Round 4: ArgFactories whose bound arguments are all positional (positional-only, *args).')
 ASSUMPTIONS = [
     'two-stage reference in this file (RefPartial/Marker) is correct',
     'an ArgFactory instance (and any container holding one) is referenced once: sharing of a '
